@@ -41,7 +41,7 @@ PROPS = {
                 relevant=lambda e: e["e"] == "resolve"),
     "C11": dict(stages=[stages.c11_mutex, stages.l1_conn], title="single-flight reconnection", prefixes=["C11_"], families=TRACE_FAMILIES,
                 relevant=lambda e: e["e"] == "attempt"),
-    "C12": dict(title="keep-alive", prefixes=["C12_"], families=TRACE_FAMILIES,
+    "C12": dict(stages=[stages.l1_keepalive], title="keep-alive", prefixes=["C12_"], families=TRACE_FAMILIES,
                 relevant=lambda e: e["e"] == "c_pkt" and e.get("type") == "PINGREQ" or (e["e"] == "c_read_end" and e.get("ec") == "timed_out")),
     "C13": dict(stages=[stages.l1_session], title="session_expired exactly once", prefixes=["C13_"], families=TRACE_FAMILIES,
                 relevant=lambda e: e["e"] == "done" and e.get("ec") == "session_expired"),
